@@ -109,7 +109,14 @@ def composite_codec_get_coded_const_prefix(codec: CompositeCodec,
         else:
             break
 
-    return encode_state.coded_message
+    # only the leading bytes which are completely determined by
+    # constants are part of the prefix: a constant that shares a byte
+    # with a non-constant parameter does not determine that byte
+    n = 0
+    while n < len(encode_state.used_mask) and encode_state.used_mask[n] == 0xff:
+        n += 1
+
+    return encode_state.coded_message[:n]
 
 
 def composite_codec_encode_into_pdu(codec: CompositeCodec, physical_value: Optional[ParameterValue],
